@@ -76,6 +76,8 @@ class Hashsum(HashIO):
         a = FnSpec.bind_call(self, interp, cx, f, args, kwargs)
         d = a.data
         a.init = d.t if isinstance(d, BytesVal) else d.remaining
+        if isinstance(a.alg, str):  # literal algorithm name at the call site
+            a.alg = SStr(z3.StringVal(a.alg))
         return a
 
     def result(self, cx, a):
